@@ -39,6 +39,16 @@ type c10Plan struct {
 
 type c10 struct{}
 
+// c10SecondResponse: the valid response the peer gives to the client's next request: what the hostile response left
+// behind in the channel (receive queue, last format, end-of-message state) meets well-formed rows.
+func c10SecondResponse() []byte {
+	body, _, err := buildResponse([]string{"rowfmt2/int4", "row/int4/typ", "row/int4/typ", "done/final"})
+	if err != nil {
+		panic(err)
+	}
+	return body
+}
+
 func init() { Register(c10{}) }
 
 func (c10) ID() string { return "C10" }
@@ -459,7 +469,7 @@ func (c10) Run(plan interface{}, schedSeed uint64, replay []simrt.Choice, lenien
 		}
 	}
 	got := runResp(cfg, respDelivery{Packets: packets, TermAt: -1},
-		respClient{QueueSize: 100, ReadTimeoutS: 1, DebugLog: p.DebugLog, DrainFor: 5 * time.Second, NoDump: true, SendAfter: 600, Render: true, ReadSizes: readSizes, QueueBefore: p.QueueBefore})
+		respClient{QueueSize: 100, ReadTimeoutS: 1, DebugLog: p.DebugLog, DrainFor: 5 * time.Second, NoDump: true, SendAfter: 600, Render: true, ReadSizes: readSizes, QueueBefore: p.QueueBefore, AnswerAfter: c10SecondResponse()})
 	runtime.ReadMemStats(&ms1)
 	out := got.Out
 	StdOutcome(v, out)
